@@ -343,8 +343,38 @@ def r9_resolved_value_type(run, F):
     run.floor("R9-RESOLVED-VALUE-TYPE", 12)
 
 
+def r10_step_chaining(run, F):
+    """A reference `p.a.b` on a by-value word parameter is lowered step by step: each extractvalue takes the *result of the
+    previous step* as its aggregate.  In generate_word_deref every LLVMBuildExtractValue's aggregate operand must derive from
+    the loop-carried value (an origin that is itself an LLVMBuildExtractValue result), not only from the parameter `from`
+    (then every step would restart at the outermost word); and the function returns that accumulated value."""
+    from rules import origins
+    b = F.body("alpha::generator::{Reference}::generate_word_deref") if F.has_body("alpha::generator::{Reference}::generate_word_deref") else None
+    if b is None:
+        cands = [x for p, x in F.lib.bodies.items() if p.endswith("::generate_word_deref")]
+        run.require(len(cands) == 1, "generate_word_deref not found")
+        b = cands[0]
+    n = 0
+    for c in hirq.calls(b["hir"]):
+        if (hirq.callee(c) or "").endswith("LLVMBuildExtractValue"):
+            n += 1
+            o = origins.origins(b["hir"], c["a"][1], b.get("params", ()))
+            carried = any(k[0] == "call" and str(k[1]).endswith("LLVMBuildExtractValue") for k in o)
+            run.ob("R10-STEP-CHAINING", "extractvalue #%d aggregate" % n, carried and ("param", "from") in o, F.where(b, c),
+                   "the aggregate operand must be the value accumulated by the previous steps (seeded with `from`); origins: %s" % sorted(map(str, o)))
+    run.floor("R10-STEP-CHAINING", 2, "extractvalue sites in generate_word_deref (Autodeslice, Member)")
+    rets = [c for c in hirq.calls(b["hir"]) if (hirq.callee(c) or "").endswith("::Some") and c.get("a")]
+    ok = False
+    for c in rets:
+        o = origins.origins(b["hir"], c["a"][0], b.get("params", ()))
+        if any(k[0] == "call" and str(k[1]).endswith("LLVMBuildExtractValue") for k in o):
+            ok = True
+    run.ob("R10-STEP-CHAINING", "result is the accumulated value", ok, F.where(b), "generate_word_deref returns Some(accumulated value)")
+
+
 def check(run):
     F = run.facts("B")
+    r10_step_chaining(run, F)
     r1_binary(run, F)
     r2_comparison(run, F)
     r3_conversion(run, F)
